@@ -25,11 +25,14 @@ def milli(a):
     return np.where(np.isnan(a), NAN, np.rint(np.nan_to_num(a))).astype(np.int64).tolist()
 
 
-def mc_only(prob, cbca=None):
+def mc_only(prob, cbca=None, conf=None):
+    """the cost volume after the cost-volume steps (matching cost, optional cbca, optional confidence steps, which only ADD bands)"""
     left, right = dp.make_datasets(prob)
     pipe = {"matching_cost": dp.mc_cfg(prob)}
     if cbca:
         pipe["aggregation"] = {"aggregation_method": "cbca", "cbca_distance": cbca[0], "cbca_intensity": cbca[1]}
+    for j, mth in enumerate(conf or []):
+        pipe["cost_volume_confidence" + (f".{j}" if j else "")] = {"confidence_method": mth}
     r = dp.StepRunner(left, right, {"pipeline": pipe})
     for _ in pipe:
         r.step()
@@ -72,8 +75,10 @@ def run(tier):
         wide = dict(base, disp=("scalar", a - ext_lo, b + ext_hi))
         feat = {"measure": measure, "win": win, "subpix": s, "cbca": bool(cbca), "interval": [a, b], "wider": [a - ext_lo, b + ext_hi],
                 "wider_exceeds_image": bool(a - ext_lo <= -cols or b + ext_hi >= cols), "masks": ["none", "both", "left", "right"][k % 4]}
+        conf = [None, ["ambiguity"], None, ["risk", "interval_bounds"], ["ambiguity", "std_intensity"]][k % 5]
+        feat["confidence_steps"] = conf
         try:
-            cvn, cvw = mc_only(base, cbca), mc_only(wide, cbca)
+            cvn, cvw = mc_only(base, cbca, conf), mc_only(wide, cbca, conf)
         except Exception as exc:  # pylint: disable=broad-except
             chk.violation("total", dict(measure=measure, exception=type(exc).__name__), {"features": feat, "exception": repr(exc)[:300]}, "")
             continue
@@ -185,16 +190,23 @@ def run(tier):
         b = a + [2, 2, 1, 3][k % 4]
         rows, cols = int(rng.randint(7, 12)), int(rng.randint(abs(a) + 3, abs(a) + 6))
         prob = dp.gen_problem(rng, rows=rows, cols=cols, win=1, s=1, measure=["sad", "ssd"][k % 2], disp=(a, b), vmax=5, mask_mode="both")
+        interp = ["sgm", "mc-cnn"][(k // 2) % 2]
+        scattered = (interp == "mc-cnn" and k % 4 >= 2) or k % 8 == 7
         for side in ("mL", "mR"):
-            m = np.where(rng.rand(rows, cols) < [0.6, 0.85][k % 2], 2, 0).astype(np.int16)
-            m[0, :] = 0                           # a valid first line ...
-            for c in rng.choice(cols, size=int(rng.randint(1, 4)), replace=False):
-                m[1:, c] = 2                      # ... above columns that are invalid down to the last line
+            if scattered:
+                # very few valid pixels anywhere: a flagged pixel may have NO valid pixel in sight along any scan direction
+                m = np.where(rng.rand(rows, cols) < [0.75, 0.88][k % 2], 2, 0).astype(np.int16)
+            else:
+                m = np.where(rng.rand(rows, cols) < [0.6, 0.85][k % 2], 2, 0).astype(np.int16)
+                m[0, :] = 0                           # a valid first line ...
+                for c in rng.choice(cols, size=int(rng.randint(1, 4)), replace=False):
+                    m[1:, c] = 2                      # ... above columns that are invalid down to the last line
             prob[side] = m
         glo, ghi = a, b
-        interp = ["sgm", "mc-cnn"][(k // 2) % 2]
-        steps = [("matching_cost", dp.mc_cfg(prob)), ("disparity", {"disparity_method": "wta", "invalid_disparity": [-9999, "NaN"][k % 2]}),
-                 ("validation", {"validation_method": "cross_checking_accurate", "cross_checking_threshold": 0.0, "interpolated_disparity": interp})]
+        steps = [("matching_cost", dp.mc_cfg(prob)), ("disparity", {"disparity_method": "wta", "invalid_disparity": [-9999, "NaN"][k % 2]})]
+        if scattered:
+            steps.append(("filter", {"filter_method": "median", "filter_size": 3}))      # breaks the left / right symmetry of the two maps
+        steps.append(("validation", {"validation_method": "cross_checking_accurate", "cross_checking_threshold": 0.0, "interpolated_disparity": interp}))
         cfg = {"pipeline": {nm: dict(c) for nm, c in steps}}
         feat = {"measure": prob["measure"], "subpix": 1, "grid": False, "pipeline": [nm for nm, _ in steps], "interval": [glo, ghi], "sparse": True, "fill": interp}
         chk.count(("range_sparse", rows, cols, a, b, interp, k))
